@@ -2,7 +2,7 @@
    specification facts), SortProofs.v (quicksort) and SeqTupleProofs.v (Tuple), with the capacity
    rules of Array_Reserve_More/Less taken from Generated.v. *)
 From Coq Require Import List Arith Bool ZArith Lia Permutation Sorted.
-From CelloV Require Import Generated SeqModels SeqProofs SortProofs SeqTupleProofs SeqErrorProofs.
+From CelloV Require Import Generated SeqModels SeqProofs SortProofs SeqTupleProofs SeqErrorProofs SeqAccessProofs.
 Import ListNotations.
 
 Section Main.
@@ -186,3 +186,35 @@ Section PreRepair.
       snd (t_rem_old Z Z.eqb t 3 v) = OUnit Z.
   Proof. exists (t_new Z [1; 2; 3] true), 9. vm_compute. repeat split. Qed.
 End PreRepair.
+
+(* ------------------------------------------------------------------ no hidden access state *)
+Section Access.
+  Variable E : Type.
+  Variable eqb ltb same : E -> E -> bool.
+  Variable zero : E.
+  Variables gc sc : nat -> nat -> bool.
+  Variables gs ss : nat -> nat -> nat.
+
+  (* reads (get, mem) interleaved anywhere in a history — from ANY start state — change neither
+     the final state nor the outcome of any other operation, for each of the three models *)
+  Theorem reads_never_disturb (ops : list (sop E)) :
+    (forall a : array E,
+       final E _ (a_step E eqb ltb gc sc gs ss) a ops =
+         final E _ (a_step E eqb ltb gc sc gs ss) a (filter (is_write E) ops) /\
+       filter (fun p => is_write E (fst p)) (trace E _ (a_step E eqb ltb gc sc gs ss) a ops) =
+         trace E _ (a_step E eqb ltb gc sc gs ss) a (filter (is_write E) ops)) /\
+    (forall l : llist E,
+       final E _ (l_step E eqb zero) l ops = final E _ (l_step E eqb zero) l (filter (is_write E) ops) /\
+       filter (fun p => is_write E (fst p)) (trace E _ (l_step E eqb zero) l ops) =
+         trace E _ (l_step E eqb zero) l (filter (is_write E) ops)) /\
+    (forall t : tuple E,
+       final E _ (t_step E eqb ltb same) t ops = final E _ (t_step E eqb ltb same) t (filter (is_write E) ops) /\
+       filter (fun p => is_write E (fst p)) (trace E _ (t_step E eqb ltb same) t ops) =
+         trace E _ (t_step E eqb ltb same) t (filter (is_write E) ops)).
+  Proof.
+    split; [|split]; intros s; apply reads_do_not_disturb.
+    - apply a_read_pure.
+    - apply l_read_pure.
+    - apply t_read_pure.
+  Qed.
+End Access.
